@@ -73,9 +73,11 @@ def check(ctx, rep):
                     ok = False
     rep.expect('R07.b', ok, 'remove-arm', 'Slab::remove is reachable exactly on the Completed and Cancelled results of run_task',
                'run_until_settled removes a task on a result other than Completed|Cancelled, or keeps a finished one')
-    under_abort = bool(clears) and all(any(bb in rs.reachable([c06.bool_edges(rs, *w)[1][1]]) for w in
-                                           [(b2, t2) for b2, t2 in rs.calls('crux_core::command::Command::was_aborted')] if c06.bool_edges(rs, *w)[1])
-                                       for bb, t in clears)
+    # with every aborted-flag test answering "not aborted" no clear is reachable; with one answering "aborted" it is
+    _was = [b2 for b2, t2 in rs.calls('crux_core::command::Command::was_aborted')]
+    _not_ab = c06.reach_if(rs, _was, False, starts=[0]) if _was else set(rs.reachable([0]))
+    under_abort = bool(clears) and bool(_was) and not any(bb in _not_ab for bb, t in clears) and \
+        all(any(bb in c06.reach_if(rs, [w], True) for w in _was) for bb, t in clears)
     fe_first = None
     rep.expect('R07.b', under_abort, 'clear-under-abort', 'Slab::clear is reached only from an aborted-flag edge',
                'run_until_settled clears the task slab outside the aborted branch')
@@ -396,7 +398,7 @@ def check_stream_end(rep, rid, core):
                         if x.kind == 'agg' and x.stmt['rv'].get('ak') == 'closure':
                             g_ = core.by_exact(x.stmt['rv']['def'])
                             for b2, t2 in (g_.calls('crossbeam_channel::channel::Receiver::try_recv') if g_ else []):
-                                out |= set(y.lstrip('^') for y in c01.field_of_receiver(g_, t2['args'][0]))
+                                out |= set(y.lstrip('^').rsplit('__', 1)[-1] for y in c01.field_of_receiver(g_, t2['args'][0]))   # edition-2021 capture `self__effects`
                         elif x.kind == 'call':
                             out |= chain_fields(x, depth + 1)
         return out
